@@ -1,42 +1,31 @@
 (* Recorded findings for C05 (findings_proposed/C05.txt).  If this file stops compiling a finding is stale, which the check reports
-   as such (it is not a violation). *)
+   as such (it is not a violation).  Repaired in the code, hence gone from here: none-special-value, g-exponent, textshadow-list,
+   number-as-fraction (unconditional theorems in Properties/C05.v). *)
 From TT Require Import Base.Prelude Base.ImscXml Model.ImscTime Model.TimeCode Model.ImscWrite Gen.ImscTables.
 From TT Require Import Proofs.C05.Values.
 From Coq Require Import QArith.
 Local Open Scope Z_scope.
 
-(* none-special-value: the writer fails on values the model accepts *)
-Theorem C05_total_refuted : print_style P_TextEmphasis SNone = WErr 3 /\ has_px P_RubyReserve SNone = None /\ has_px P_TextShadow SNone = None.
-Proof. repeat split; reflexivity. Qed.
-
-(* g-exponent: 1234567px is written as 1.23457e+06px, which the reader rejects *)
-Theorem C05_length_roundtrip_refuted : exists x u, 0 <= u <= 5 /\ parse_len (print_len (mkLen x u)) = None.
-Proof. exists (1234567 # 1), U_px. split; [unfold U_px; lia|]. vm_compute. reflexivity. Qed.
-
 (* linepadding-units: 1rh is a valid ebutts:linePadding in the model, written as such and rejected on re-read *)
 Theorem C05_line_padding_refuted : exists l, validate_style P_LinePadding (SLen l) = true /\ read_style P_LinePadding (print_len l) = None.
 Proof. exists (mkLen 1 U_rh). split; vm_compute; reflexivity. Qed.
-
-(* textshadow-list: two shadows are written with ", " and rejected on re-read *)
-Theorem C05_text_shadow_list_refuted : exists l s,
-  length l = 2%nat /\ print_style P_TextShadow (SShadows l) = WAttr s /\ read_style P_TextShadow s = None.
-Proof.
-  exists [(mkLen 1 U_px, mkLen 2 U_px, None, None); (mkLen 3 U_px, mkLen 4 U_px, None, None)]. eexists.
-  split; [reflexivity|]. split; [reflexivity|]. vm_compute. reflexivity.
-Qed.
 
 (* transparent-background: an explicitly transparent background is not written *)
 Theorem C05_transparent_refuted : print_style P_BackgroundColor (SColor transparent) = WSkip.
 Proof. reflexivity. Qed.
 
-(* number-as-fraction: tts:opacity 3/4 is written as "3/4" *)
-Theorem C05_fraction_refuted : print_style P_Opacity (SFrac (3 # 4)) = WAttr [51; 47; 52].
-Proof. vm_compute. reflexivity. Qed.
-
 (* negative-time: the clock-time writer refuses a negative offset the model accepts *)
 Theorem C05_negative_time_refuted : to_time_format SyClock None (- (1 # 1)) = None.
 Proof. reflexivity. Qed.
 
-Print Assumptions C05_total_refuted.  Print Assumptions C05_length_roundtrip_refuted.  Print Assumptions C05_line_padding_refuted.
-Print Assumptions C05_text_shadow_list_refuted.  Print Assumptions C05_transparent_refuted.  Print Assumptions C05_fraction_refuted.
-Print Assumptions C05_negative_time_refuted.
+(* shear-clamped: tts:shear 250 is written as "250%" and read back as 100 *)
+Theorem C05_shear_clamped_refuted : exists s, print_style P_Shear (SInt 250) = WAttr s /\ read_style P_Shear s = Some (SFrac (100 # 1)).
+Proof. eexists. split; [reflexivity|]. vm_compute. reflexivity. Qed.
+
+(* textdecoration-no-component: a tts:textDecoration value without any component has no TTML representation and is not written; as the
+   value of an animation step or of an initial value (where it is not equivalent to the absence of the property) it is lost *)
+Theorem C05_text_decoration_empty_refuted : print_style P_TextDecoration (STextDec None None None) = WSkip.
+Proof. reflexivity. Qed.
+
+Print Assumptions C05_line_padding_refuted.  Print Assumptions C05_transparent_refuted.  Print Assumptions C05_negative_time_refuted.
+Print Assumptions C05_shear_clamped_refuted.  Print Assumptions C05_text_decoration_empty_refuted.
